@@ -288,5 +288,18 @@ class Origins:
                     self.deps_names(v, seen)
         return seen
 
+    def closure(self, e: ast.AST, _seen: Optional[Set[str]] = None) -> List[ast.AST]:
+        """Every AST node of ``e`` and of the defining expressions of the locals it transitively uses:
+        lets a rule ask "does this value come through <construct>" whether or not temporaries were used."""
+        seen = _seen if _seen is not None else set()
+        out: List[ast.AST] = []
+        for n in ast.walk(e):
+            out.append(n)
+            if isinstance(n, ast.Name) and n.id not in seen:
+                seen.add(n.id)
+                for _, v in self.defs.get(n.id, []):
+                    out += self.closure(v, seen)
+        return out
+
     def crs_roots(self, e: ast.AST) -> Set[str]:
         return {r for r, c in self.origin(e) if c}
